@@ -128,6 +128,50 @@ def run(prog):
                                          "reached in both polarities yields its complement's value"
                                          % (bad[0], "complemented" if bad[0] == "0" else "regular", "complemented" if nu else "regular"))
                                         if bad else "slot %s returned for a %s pointer" % (ks[0], "complemented" if nu else "regular")))
+            # ---- derived reads: a returned value that is *computed from* a memo entry (not the entry itself, and not the
+            # compute step that receives the other slot only to pass it through to set_scratch).  The memo holds the
+            # fold's value for one polarity; the fold is generic in the value type, and no function of f's value gives
+            # ¬f's value for every such type and every weight (it does for Boolean evaluation, not for Boolean counting
+            # with a variable left open, nor for non-normalised weights): each polarity is folded on its own.
+            if P[0] == "param" and te.ret is not None and not ups:
+                def leaves(t):
+                    t = strip(t)
+                    if isinstance(t, tuple) and t and t[0] in ("gamma", "phi"):
+                        o = []
+                        for _, v in t[2]:
+                            o += leaves(v)
+                        return o
+                    return [t]
+
+                def writes_memo(callee_term):
+                    c0 = _peel(callee_term)
+                    h = None
+                    if isinstance(c0, tuple) and c0 and c0[0] == "agg" and c0[1] == "closure":
+                        h = canon.closure_fn(prog, c0)[0]
+                    return h is not None and any(c2.callee.name == "set_scratch" for c2 in h.terms.calls)
+                bad = []
+                for lf in leaves(te.ret):
+                    if memo_slot(lf) is not None or not (isinstance(lf, tuple) and lf):
+                        continue
+                    def slot_ref(x):
+                        x = _peel(x)
+                        return isinstance(x, tuple) and x and x[0] == "field" and x[2] in ("0", "1") and \
+                            isinstance(x[1], tuple) and "scratch(" in show(x[1]) and show(x[1]).endswith(".0")
+                    inner = [x for x in mir.subterms(lf) if x is not lf and (memo_slot(x) is not None or slot_ref(x))]
+                    if not inner:
+                        continue
+                    core = _peel(lf[1][1]) if canon.is_payload(lf) else lf
+                    if mir.is_call(core) and core[1].name in ("call", "call_once", "call_mut") and core[2] and writes_memo(core[2][0]):
+                        continue
+                    if mir.is_call(core) and core[1].local and any(c2.callee.name == "set_scratch" for h in prog.resolve(core[1]) for c2 in h.terms.calls):
+                        continue
+                    bad.append(show(lf)[:70])
+                if bad:
+                    n += 1
+                    out.append(inst("MS", "%s:derived-read" % g.npath, VIOLATION, g, None,
+                                    "the traversal returns `%s`, a value computed from a memo entry instead of the entry of the "
+                                    "pointer's own polarity or a fresh fold: the memo of one polarity does not determine the value "
+                                    "of the other for every value type and weight" % bad[0]))
             # ---- writes
             for cs in te.calls:
                 if cs.callee.name != "set_scratch" or len(cs.args) != 2:
